@@ -34,6 +34,8 @@ func scenariosC01() []*scenario {
 			out = append(out, &scenario{name: fmt.Sprintf("c01/s%d/p%d", s0, pi), base: s0, opt: allOpts(), bound: bound, rounds: rounds})
 		}
 	}
+	// entries, an empty round, entries again: state kept from the last non-empty round must not go stale
+	out = append(out, &scenario{name: "c01/s0/entries-empty-entries", base: 0, opt: allOpts(), bound: 1, rounds: [][]string{{"a"}, {}, {"b"}, {}}})
 	// creation of the log itself, with faults, crashes and clock anomalies
 	out = append(out, &scenario{name: "c01/create", base: -1, opt: allOpts(), bound: 2, create: true, rounds: [][]string{{"a"}}})
 	return out
